@@ -8,7 +8,7 @@ MATRIX_KINDS = ["diag", "spd", "sym_indef", "herm_pd", "herm_indef", "herm_posdi
                 "upper", "lower"]
 # kinds that are only meaningful with complex entries
 COMPLEX_ONLY = {"herm_pd", "herm_indef", "complex_sym"}
-HERMITIAN_KINDS = {"spd", "sym_indef", "herm_pd", "herm_indef", "herm_posdiag_indef"}  # (diag real counts too)
+HERMITIAN_KINDS = {"spd", "sym_indef", "herm_pd", "herm_indef", "herm_posdiag_indef", "herm_tinydiag_indef"}  # (diag real counts too)
 
 
 def rand_unit(rng, shape, cplx):
@@ -74,6 +74,21 @@ def make_matrix(kind, n, rng, cplx=False, cond=100.0):
                 break
             t *= 1.17
         return _herm(np.eye(n) + t * b)
+    if kind == "herm_tinydiag_indef":
+        # Hermitian, indefinite, well conditioned, with a one-signed diagonal that is tiny against the off-diagonal
+        # entries: 2x2 blocks [[d, c], [conj(c), d]] with 0 < d << |c| (eigenvalues d +- |c|), hidden by a symmetric
+        # permutation; odd n gets one 1x1 block of size 1. A factorisation that does not pivot loses all accuracy here.
+        a = np.zeros((n, n), dtype=complex if cplx else float)
+        d = 1e-7
+        mags = np.exp(rng.uniform(0.0, np.log(max(cond, 1.0)) / 2.0, n // 2))
+        for k in range(n // 2):
+            c = mags[k] * (np.exp(1j * rng.uniform(0, 2 * np.pi)) if cplx else rng.choice([-1.0, 1.0]))
+            a[2 * k, 2 * k] = a[2 * k + 1, 2 * k + 1] = d
+            a[2 * k, 2 * k + 1], a[2 * k + 1, 2 * k] = c, np.conj(c)
+        if n % 2:
+            a[n - 1, n - 1] = 1.0
+        p = rng.permutation(n)
+        return a[np.ix_(p, p)]
     if kind == "complex_sym":
         u = rand_orth(rng, n, True)
         return _sym(u @ np.diag(spectrum(rng, n, cond, "pos")) @ u.T)
@@ -111,7 +126,7 @@ def class_direction(kind, n, rng, cplx, pattern=None):
     v = rand_unit(rng, (n, n), cplx)
     if kind == "diag":
         v = np.diag(np.diag(v))
-    elif kind in ("spd", "sym_indef", "herm_pd", "herm_indef", "herm_posdiag_indef"):
+    elif kind in ("spd", "sym_indef", "herm_pd", "herm_indef", "herm_posdiag_indef", "herm_tinydiag_indef"):
         v = _herm(v)
     elif kind == "complex_sym":
         v = _sym(v)
